@@ -4,6 +4,7 @@ package main
 
 import (
 	"context"
+	"encoding/json"
 	"fmt"
 	"github.com/ipfs/go-cid"
 	"os"
@@ -418,6 +419,132 @@ func TestVerif_C09_Handlers(t *testing.T) {
 			}
 		}
 		for _, ep := range []*Epoch{mOld, mNew, p1} {
+			ep.Close()
+		}
+	}
+	// ---- getSignaturesForAddress while the epoch is replaced by another version with the SAME LAYOUT but other
+	// transactions at the same offsets (the accounts are rotated): the handler reads the address's locations from the
+	// old version's address index; whatever it then reads them from, the request is not addressed to an epoch that
+	// stays loaded (an error reply is fine), but C03 has no exception for reloads: no signature of a transaction that
+	// does not mention the address.
+	if vkit.Mine(int64(len(scs)) + 2) {
+		shA := cargen.SimpleShape(2, 3, 6, 1)
+		shB := cargen.SimpleShape(2, 3, 6, 1)
+		shB.Seed = 77 // other signatures (and block hashes) than version A, same sizes
+		for b := range shB.Blocks {
+			for k := range shB.Blocks[b].Entries[0] {
+				shB.Blocks[b].Entries[0][k].Accounts = []int{(b + k + 1) % 3}
+			}
+		}
+		eA, errA := vkBuildEpoch(filepath.Join(base, "gA"), shA, true)
+		eB, errB := vkBuildEpoch(filepath.Join(base, "gB"), shB, true)
+		if errA != nil || errB != nil {
+			R.Internal("build: %v %v", errA, errB)
+			return
+		}
+		eA.writeConfig(vkConfigOpts{})
+		eB.writeConfig(vkConfigOpts{})
+		gc := vkNewCache()
+		mA, err1 := vkLoadEpoch(eA.ConfigPath, gc)
+		mB, err2 := vkLoadEpoch(eB.ConfigPath, gc)
+		g1, err3 := vkLoadEpoch(e1.ConfigPath, gc)
+		if err1 != nil || err2 != nil || err3 != nil {
+			R.Internal("load: %v %v %v", err1, err2, err3)
+			return
+		}
+		addr := cargen.Account(0)
+		own := map[string]bool{}
+		for _, e := range []*vEpoch{eA, eB, e1} {
+			for _, tx := range e.Truth.Txs {
+				for _, k := range tx.Accounts {
+					if k == addr {
+						own[tx.Sig.String()] = true
+					}
+				}
+			}
+		}
+		body := fmt.Sprintf(`{"jsonrpc":"2.0","id":1,"method":"getSignaturesForAddress","params":[%q,{"limit":10}]}`, addr.String())
+		gsfaProbe := func(c *explore.Ctx) explore.Result {
+			if r, ok := interface{}(gc).(interface{ Reset() error }); ok {
+				r.Reset()
+			}
+			oldCopy, newCopy := *mA, *mB
+			oldCopy.onClose, newCopy.onClose = nil, nil
+			old, fresh := &oldCopy, &newCopy
+			var resp []byte
+			var pan interface{}
+			s := vsched.Run(c, vsched.Options{Horizon: 6000, Drain: true}, func() {
+				m := vkNewMulti(2, g1, old)
+				h := newMultiEpochHandler(m, nil)
+				done := make(chan struct{}, 2)
+				vsched.Go(func() {
+					_, resp, pan = vkRPCh(h, body)
+					vsched.Send(done, struct{}{})
+				})
+				vsched.Go(func() {
+					m.ReplaceOrAddEpoch(2, fresh)
+					vsched.Send(done, struct{}{})
+				})
+				vsched.Recv(done)
+				vsched.Recv(done)
+			})
+			if c.Pruned {
+				return explore.Result{}
+			}
+			res := explore.Result{NonTrivial: s.Preemptions > 0}
+			switch {
+			case s.Panic != "":
+				if strings.Contains(s.Panic, "replay divergence") {
+					panic(s.Panic)
+				}
+				res.Outcome = "panic"
+				res.Violation = &explore.Violation{Key: "C09|gsfa-during-replacement|panic", What: firstLine(s.Panic)}
+			case s.Deadlock:
+				res.Outcome = "deadlock"
+				res.Violation = &explore.Violation{Key: "C09|gsfa-during-replacement|deadlock", What: s.DeadlockInfo}
+			case s.HorizonHit:
+				res.Outcome = "horizon"
+			case pan != nil:
+				res.Outcome = "handler-panic"
+				res.Violation = &explore.Violation{Key: "C09|gsfa-during-replacement|panic", What: fmt.Sprint(pan)}
+			default:
+				var m struct {
+					Result []map[string]interface{} `json:"result"`
+				}
+				json.Unmarshal(resp, &m)
+				foreign := ""
+				for _, r := range m.Result {
+					if sg, _ := r["signature"].(string); !own[sg] && foreign == "" {
+						foreign = sg
+					}
+				}
+				res.Outcome = fmt.Sprintf("signatures=%d", len(m.Result))
+				if foreign != "" {
+					res.Outcome = "foreign-signature"
+					res.Violation = &explore.Violation{Key: "C09|gsfa-during-replacement|foreign-signature", What: fmt.Sprintf("getSignaturesForAddress(%s) while epoch 2 is replaced by a version with other transactions at the same offsets: the answer lists %d signatures, among them %s, whose transaction does not mention the address in either version (locations from the old version's address index were read from the new version's CAR)", addr, len(m.Result), foreign)}
+				}
+			}
+			return res
+		}
+		st := explore.Search(explore.Config{Bound: bound, Deadline: R.Deadline(), Prune: true}, gsfaProbe)
+		R.Evaluations += st.Executions
+		R.NonTrivial += st.NonTrivial
+		R.Transitions += st.Points
+		R.TracesValidated += st.Executions
+		R.States += st.States
+		R.Add("gsfa_probe_executions", st.Executions)
+		for o := range st.Outcomes {
+			R.Outcome("gsfa-during-replacement:" + o)
+		}
+		for _, f := range st.Violations {
+			if ok, why := explore.Confirm(f, 3, gsfaProbe); !ok {
+				R.InconclusiveF("violation %s did not reproduce: %s", f.Violation.Key, why)
+				continue
+			}
+			R.Violation(f.Violation.Key, f.Violation.What, map[string]interface{}{"family": "gsfa-during-replacement", "choices": f.Choices})
+			break
+		}
+		for _, ep := range []*Epoch{mA, mB, g1} {
 			ep.Close()
 		}
 	}
